@@ -28,13 +28,6 @@ Inductive wfe : node -> Prop :=
     is_prefix id = true -> eligible (name_of id) = true -> wfe x ->
     wfe (Node (name_of id) v i a ln [x]).
 
-(* GUARD statement-start: the printer separates statements by line breaks only, and the parser
-   continues an expression across a line break when the next token is an infix operator
-   (`a` / `-b` reads as a - b) or an opening parenthesis after an identifier (`a` / `(b)` reads
-   as the call a(b)).  A statement that is not the first of its block must therefore not
-   start with such a token — see C08_stmt_start_operator_refuted. *)
-Definition safe_start (id : nat) : bool := negb (is_infix id) && negb (Nat.eqb id TokenLPAREN).
-
 (* statement kinds covered by the theorem; the others are in the syntax (and in the printer
    equality) but not in the round-trip theorem *)
 Fixpoint wfS (s : stmt) : Prop :=
@@ -48,15 +41,10 @@ Fixpoint wfS (s : stmt) : Prop :=
   | STry b ex ow fin => False
   | SFunc x ps b => False
   end
-with wfB (b : sblock) : Prop :=                 (* a block / program: first statement unrestricted *)
+with wfB (b : sblock) : Prop :=
   match b with
   | BNil => True
-  | BCons s r => wfS s /\ wfR r
-  end
-with wfR (b : sblock) : Prop :=                 (* the statements after the first *)
-  match b with
-  | BNil => True
-  | BCons s r => wfS s /\ safe_start (head_id (pp_stmt s)) = true /\ wfR r
+  | BCons s r => wfS s /\ wfB r
   end
 with wfT (r : iftail) : Prop :=
   match r with
@@ -77,13 +65,7 @@ Fixpoint last_is_return0 (b : sblock) : bool :=
 (* a program: at least one statement; a bare `return` as the last top-level statement reads
    the end-of-file token as its value when that is on the same line, so no source text that
    parses ends that way *)
-(* no printed token is the end-of-file token: true of every program (no statement or expression
-   kind prints it); kept as a decidable side condition instead of a further induction *)
-Definition no_eof_token (l : list item) : bool :=
-  forallb (fun it => match it with T id _ _ => negb (Nat.eqb id TokenEOF) | NL => true end) l.
-
-Definition wfP (b : sblock) : Prop :=
-  b <> BNil /\ wfB b /\ last_is_return0 b = false /\ no_eof_token (pp_prog b) = true.
+Definition wfP (b : sblock) : Prop := b <> BNil /\ wfB b /\ last_is_return0 b = false.
 
 (* ---------------------------------------------------------------------------------- *)
 (* The demands *)
